@@ -140,6 +140,14 @@ CHECKS = {
             "every assignment of answers with <= F deviations from 'everything accepted' is executed for message sizes 1 byte .. 2 MiB+5 and 1-2 "
             "sends; the bytes the peer received must parse as the messages in order, complete where success was reported, a prefix where failure was.",
             "Kernel answers are a model; F = 2 quick / 3 thorough deviations per execution.", "DESIGN.md 3/C10"),
+    "C17": ("model_checking", "vrt+explore", "stateless delay- and cut-bounded exploration of two real SecsIProtocol endpoints on a virtual line + exhaustive corruption positions",
+            "Two real SecsIProtocol objects (host, equipment) joined by an in-memory line; a message of 1-3 blocks is sent, answered by the other "
+            "side and followed by another; every schedule with <= K delays (lines of the handshake code, byte queue and dispatcher) and <= C "
+            "chunking deviations per execution, the all-single-bytes chunking, and one corrupted byte at every header/data/checksum position "
+            "of a block are executed. Oracle: transcript grammar (ENQ, EOT, block, ACK|NAK), success => delivered once with identical header and "
+            "body, corrupted => NAK, not delivered, failure reported, following messages still pass, nothing hangs.",
+            "Only one side transmits at a time (the statement's assumption); length-byte corruption is a recorded known finding (no T1/T2).",
+            "DESIGN.md 3/C17"),
 }
 
 NOT_YET = "check not built yet in this revision of /verif (see DESIGN.md section 6 build order)"
